@@ -1,6 +1,6 @@
 """C10 -- every accepted specification yields C code that builds; the compiler
 never dies; what it cannot handle it rejects with a diagnostic."""
-import hashlib, os, random, re, shutil, subprocess
+import glob, hashlib, os, random, re, shutil, subprocess
 from concurrent.futures import ThreadPoolExecutor
 from .. import build, core, drv
 from ..asn import gen, model
@@ -94,6 +94,17 @@ def run(tier, seed):
         for os_ in [(), ("-fwide-types",), ("-fcompound-names", "-findirect-choice")]:
             jobs.append(("valid", itext, os_, "IOC:" + nm))
 
+    # the shipped single-file specifications (compiler test corpus marked -OK, examples): constructs nobody here wrote by hand
+    shipped = sorted(glob.glob(os.path.join(tc.repo, "tests/tests-asn1c-compiler/*-OK.asn1")))
+    shipped += sorted(glob.glob(os.path.join(tc.repo, "examples/*.asn1")))
+    if quick:
+        shipped = rng.sample(shipped, min(len(shipped), 30))
+    for f in shipped:
+        with open(f, encoding="utf-8", errors="surrogateescape") as fh:
+            stext = fh.read()
+        for os_ in ([()] if quick else [(), ("-fcompound-names",), ("-fwide-types", "-findirect-choice")]):
+            jobs.append(("shipped", stext, os_, "SHP:" + os.path.basename(f)))
+
     # identical (module text, option set) pairs reached through different families are compiled once
     seenjobs, ujobs = set(), []
     for j in jobs:
@@ -172,12 +183,14 @@ def run(tier, seed):
         chk.seen((text, opts))
         feats = features_of(text)
         key = {"input": kind.split(":")[0], "fault": kind.split(":")[-1], "options": " ".join(opts) or "-", "features": "+".join(feats) or "-"}
+        if kind == "shipped":
+            key["file"] = rec["name"][4:]
         replay = {"module": text, "options": opts, "asn1c_rc": rec["rc"], "stderr": rec["stderr"][-1500:]}
         rc = rec["rc"]
         if rc == -99:
             chk.violation(dict(key, symptom="compiler-hang"), "asn1c did not finish in 180 s", replay)
             continue
-        if rc < 0 or rc >= 128 or "AddressSanitizer" in rec["stderr"] or "Assertion" in rec["stderr"]:
+        if rc < 0 or rc >= 128 or "ERROR: AddressSanitizer" in rec["stderr"] or re.search(r"Assertion `[^\n]*' failed", rec["stderr"]):
             k2, frame = drv.classify_report("\n".join(l for l in rec["stderr"].split("\n") if "runtime error:" not in l))
             chk.violation(dict(key, symptom="compiler-died", report=k2, frame=frame),
                           "asn1c died (status %s, %s in %s) on a %s module with options [%s]" % (rc, k2, frame, kind, " ".join(opts)), replay)
@@ -188,6 +201,8 @@ def run(tier, seed):
             diag = "\n".join(l for l in rec["stderr"].split("\n") if "runtime error:" not in l).strip()
             if not diag:
                 chk.violation(dict(key, symptom="rejected-without-diagnostic"), "asn1c exit %d with empty stderr (%s)" % (rc, kind), replay)
+            elif kind == "shipped":
+                chk.count("shipped_file_rejected_with_diagnostic")
             elif kind == "valid":
                 if rec["name"] in ("FX", "FXC"):
                     chk.inconcl("the fixed constructs module was rejected: " + diag.split("\n")[0][:100])
